@@ -134,6 +134,13 @@ func CheckC03(r *core.Run) {
 		c.Txs = r.Pick(30, 60)
 	})
 	traces := histories(r, cfgs)
+	// every timing of the background writer: batches with duplicate page ids (stalled disk)
+	bs := batchScenarios()
+	for _, t := range bs {
+		r.AddDistinct(t.Name)
+		r.AddEvals(int64(len(t.Events)))
+	}
+	traces = append(traces, bs...)
 	if len(traces) > 0 && traces[0] != nil {
 		n := len(traces[0].Events)
 		if n > 12 {
